@@ -151,7 +151,7 @@ ExpiryExact == \A op \in AllOps : Legal(op) =>
                    o.rec.exp = (CASE op.op = "update_ttl" -> ExpOf(now, op.ttl)
                                   [] op.op \in {"cas", "incr"} -> ExpOf(o.rec.ts, op.ttl)
                                   [] op.op = "insert" ->
-                                       (IF op.ttl > 0 /\ cfg.ttl THEN ExpOf(o.rec.ts, op.ttl) ELSE TZero)
+                                       (IF op.ttl # TtlNone /\ cfg.ttl THEN ExpOf(o.rec.ts, op.ttl) ELSE TZero)
                                   [] OTHER -> TZero)
 TtlKeepsValue == \A op \in AllOps : (Legal(op) /\ op.op = "update_ttl") =>
                    \A o \in Outcomes(op) : ~IsErr(o.res) => o.rec.val = kv[op.k].val
